@@ -6,6 +6,7 @@ import (
 	"io"
 	"math/rand"
 	"strings"
+	"sync/atomic"
 
 	"github.com/biogo/biogo/alphabet"
 	"github.com/biogo/biogo/io/seqio/fasta"
@@ -263,13 +264,15 @@ type chunkReader struct {
 	data   []byte
 	pos    int
 	rng    *rand.Rand
-	eof    bool
-	maxLen int
+	eof     bool
+	eofFlag int32
+	maxLen  int
 }
 
 func (c *chunkReader) Read(p []byte) (int, error) {
 	if c.pos >= len(c.data) {
 		c.eof = true
+		atomic.StoreInt32(&c.eofFlag, 1)
 		return 0, io.EOF
 	}
 	n := len(p)
